@@ -1,6 +1,8 @@
 package zzh
 
 import (
+	"errors"
+	"fmt"
 	"strconv"
 	"strings"
 	"time"
@@ -308,4 +310,35 @@ func defDecode(s string) (int, int) {
 		return 0xFFFD, 1
 	}
 	return v, need + 1
+}
+
+// Sentinel errors keep their identity through merged calls (== and errors.Is).
+var (
+	errSentA = errors.New("sentinel a")
+	errSentB = errors.New("sentinel b")
+)
+
+func pickSentinel(s string) error {
+	if len(s) > 0 && s[0] >= '0' && s[0] <= '9' {
+		if len(s) > 1 && s[1] == '-' {
+			return errSentB
+		}
+		return fmt.Errorf("wrapped: %w", errSentA)
+	}
+	if len(s) > 1 && s[1] == '-' {
+		return errSentA
+	}
+	return nil
+}
+
+func VXStdSentinel(a string, flip bool) {
+	err := pickSentinel(a)
+	digit := len(a) > 0 && a[0] >= '0' && a[0] <= '9'
+	dash := len(a) > 1 && a[1] == '-'
+	good := (err == nil) == (!digit && !dash)
+	good = good && (err == errSentB) == (digit && dash)
+	good = good && (err == errSentA) == (!digit && dash)
+	good = good && errors.Is(err, errSentA) == ((digit && !dash) || (!digit && dash))
+	good = good && errors.Is(err, errSentB) == (digit && dash)
+	vv.Assert(xor(good, flip), "selfcheck: sentinel error identity lost")
 }
